@@ -5,6 +5,7 @@ This module contains utility classes and functions used across the code generati
 
 import base64
 import dataclasses
+import enum
 import keyword
 import logging
 import re
@@ -436,6 +437,11 @@ class DataclassSerializer:
             Serialised object with all dataclasses converted to dicts
         """
         from .cattrs_converter import unstructure_to_dict
+
+        # Enums that mix in str/int would pass the primitive test below and leave as the member itself
+        # (httpx then renders "Color.RED" instead of the value): convert them to their value first
+        if isinstance(obj, enum.Enum):
+            return DataclassSerializer._serialize_with_tracking(obj.value, visited)
 
         # Handle primitives early (no tracking needed)
         if obj is None or isinstance(obj, (str, int, float, bool)):
